@@ -154,6 +154,30 @@ class GPTRank:
                                         'factor_worker': a.factor_worker(n, 'A'), 'inv_worker': a.inv_worker(n, 'A'),
                                         'has_second_order': l.qa is not None and l.qg is not None}
                                     for n, l in self.pre._layers.values()}
+            elif kind == 'snapshot':
+                self._snap = pickle.loads(pickle.dumps(self.pre.state_dict(include_factors=True)))
+                self._snap_params = [p.detach().clone() for p in self.model.parameters()]
+                if self.ckpt_dir is not None:
+                    dist.barrier()
+                    # keep the per-layer files of this boundary aside (a later state_dict() would overwrite them)
+                    import shutil
+                    if self.rank == 0:
+                        shutil.copytree(self.ckpt_dir, self.ckpt_dir + '.snap', dirs_exist_ok=True)
+                    dist.barrier()
+            elif kind == 'rollback':
+                # load the older checkpoint into the SAME (live) preconditioner and put the weights back
+                if self.ckpt_dir is not None:
+                    import shutil
+                    dist.barrier()
+                    if self.rank == 0:
+                        shutil.copytree(self.ckpt_dir + '.snap', self.ckpt_dir, dirs_exist_ok=True)
+                    dist.barrier()
+                with warnings.catch_warnings():
+                    warnings.simplefilter('ignore')
+                    self.pre.load_state_dict(pickle.loads(pickle.dumps(self._snap)), compute_inverses=op.get('compute_inverses', True))
+                with torch.no_grad():
+                    for p, q in zip(self.model.parameters(), self._snap_params):
+                        p.copy_(q)
             elif kind == 'memory_usage':
                 rec['memory'] = dict(self.pre.memory_usage())
             else:
